@@ -223,8 +223,17 @@ func checkLocation(rq rsx.Req, loc string) string {
 	if res.Scheme != base.Scheme || res.Host != base.Host {
 		return fmt.Sprintf("Location %q resolves to another origin %s://%s", loc, res.Scheme, res.Host)
 	}
-	if res.RawQuery != rq.Query {
+	// the query is kept: identical, or identical once percent-decoded (non-ASCII bytes must be
+	// escaped in a header value)
+	gq, err1 := url.PathUnescape(res.RawQuery)
+	wq, err2 := url.PathUnescape(rq.Query)
+	if res.RawQuery != rq.Query && (err1 != nil || err2 != nil || gq != wq) {
 		return fmt.Sprintf("Location %q resolves to query %q, want %q", loc, res.RawQuery, rq.Query)
+	}
+	for i := 0; i < len(loc); i++ {
+		if loc[i] >= 0x80 || loc[i] < 0x20 {
+			return fmt.Sprintf("Location %q contains a byte outside printable ASCII", loc)
+		}
 	}
 	if res.Fragment != "" {
 		return fmt.Sprintf("Location %q carries a fragment %q", loc, res.Fragment)
@@ -429,7 +438,7 @@ func runEncoded(c *mc.Ctx, r *mc.Result) {
 		{{Pattern: "/{p0}/", Slash: rsx.SlashIgnore}},
 		{{Pattern: "/{p0}", Slash: rsx.SlashIgnore}},
 	}
-	r.Bounds["encoded"] = fmt.Sprintf("%d single-route sets x prefixes {/, /a/, /s/} x %d last segments (decoded and escaped) x trailing slash x query {none, q=1&r=%%2F} x methods %v", len(sets), len(segs), methods)
+	r.Bounds["encoded"] = fmt.Sprintf("%d single-route sets x prefixes {/, /a/, /s/} x %d last segments (decoded and escaped) x trailing slash x query {none, q=1&r=%%2F, raw non-ASCII} x methods %v", len(sets), len(segs), methods)
 	n := 0
 	for si, s := range sets {
 		for i := range s {
@@ -444,7 +453,7 @@ func runEncoded(c *mc.Ctx, r *mc.Result) {
 		for _, prefix := range []seg{{"/", ""}, {"/a/", ""}, {"/a:b/", ""}, {"/é/", "/%C3%A9/"}} {
 			for _, sg := range segs {
 				for _, slash := range []string{"", "/"} {
-					for _, q := range []string{"", "q=1&r=%2F"} {
+					for _, q := range []string{"", "q=1&r=%2F", "n=caf\u00e9&e=\u20ac"} {
 						for _, m := range methods {
 							n++
 							if !c.Mine(n) {
